@@ -96,15 +96,26 @@ def snap(x):
 def reject(ctx, viol, fn, *operands):
     """The property says ``fn()`` must raise and leave ``operands`` as they were."""
     before = [snap(o) for o in operands]
+    raised = False
     try:
         r = fn()
     except Exception:  # noqa: BLE001
-        pass
+        raised = True
     else:
         sh = getattr(r, "shape", None)
         ctx.fail("no-exception", viol, f"returned {type(r).__name__} shape={sh}: {repr(r)[:200]}")
     after = [snap(o) for o in operands]
     ctx.check(before == after, f"{viol}:operand-changed")
+    if not raised:
+        return
+    # the same request once more: what the rejected attempt left behind (caches, half-done work) must not make it pass
+    try:
+        r = fn()
+    except Exception:  # noqa: BLE001
+        pass
+    else:
+        ctx.fail("no-exception", f"{viol}:second-attempt", f"returned {type(r).__name__} on the second attempt")
+    ctx.check(before == [snap(o) for o in operands], f"{viol}:operand-changed-by-second-attempt")
 
 
 # --------------------------------------------------------------------------
@@ -117,12 +128,31 @@ def vals_for(n, k=0):
     return [float(((i * 7 + 3 * k) % 11) - 5) or 6.0 for i in range(n)]
 
 
-def dense(shape, k=0):
+# Round 2: the state of the operands is part of the case (``state(case)`` is applied by the cell before it builds them):
+#   zs / zo  - the receiver / the other operand holds only zeros (dense zero data, zero Kruskal weights, zero Tucker core):
+#              the ill-formed request then has no visible effect on any value that could be returned
+#   prov     - dense tensors come from the constructor or from growth by assignment (C-ordered buffer, numpy ints in shape)
+#   idt      - dtype of the vectors / matrices handed in
+_STATE = dict(zs=False, zo=False, prov="ctor", idt="float")
+
+
+def state(case):
+    _STATE.update(zs=bool(case.get("zs")), zo=bool(case.get("zo")), prov=case.get("prov", "ctor"), idt=case.get("idt", "float"))
+
+
+def _zero(role):
+    return _STATE["zs"] if role == "self" else (_STATE["zo"] if role == "other" else False)
+
+
+def dense(shape, k=0, role="self"):
     shape = tuple(int(s) for s in shape)
-    return ttb.tensor(gen.arr_F(shape, vals_for(ref.prod(shape), k)).copy(order="F"), shape)
+    v = [0.0] * ref.prod(shape) if _zero(role) else vals_for(ref.prod(shape), k)
+    if _STATE["prov"] == "grown" and role == "self":
+        return gen.build_tensor(dict(shape=list(shape), data=v, prov="grown"))
+    return ttb.tensor(gen.arr_F(shape, v).copy(order="F"), shape)
 
 
-def sparse(shape, pattern="some", k=0):
+def sparse(shape, pattern="some", k=0, role="self"):
     shape = tuple(int(s) for s in shape)
     n = ref.prod(shape)
     subsF = ref.all_subs_F(shape)
@@ -138,33 +168,53 @@ def sparse(shape, pattern="some", k=0):
         return ttb.sptensor(shape=shape)
     keep = keep[::-1]  # unsorted storage
     v = vals_for(n, k)
-    return ttb.sptensor(np.array([subsF[i] for i in keep], dtype=int).reshape(len(keep), len(shape)),
-                        np.array([v[i] for i in keep], dtype=float).reshape(-1, 1), shape)
+    vals = np.array([v[i] for i in keep], dtype=float).reshape(-1, 1)
+    if pattern == "zeros":  # every stored value is an explicitly stored zero (the state S*0 / scale by 0 leave behind)
+        vals = vals * 0.0
+    return ttb.sptensor(np.array([subsF[i] for i in keep], dtype=int).reshape(len(keep), len(shape)), vals, shape)
 
 
-def kten(shape, r=2, k=0):
+def kten(shape, r=2, k=0, role="self"):
     fms = [np.array(vals_for(int(n) * r, k + j), dtype=float).reshape(int(n), r) for j, n in enumerate(shape)]
-    return ttb.ktensor(fms, np.array(vals_for(r, k + 9), dtype=float))
+    w = np.array(vals_for(r, k + 9), dtype=float)
+    return ttb.ktensor(fms, w * 0.0 if _zero(role) else w)
 
 
-def tten(shape, cshape=None, k=0, sparse_core=False):
+def tten(shape, cshape=None, k=0, sparse_core=False, role="self"):
     cshape = [2] * len(shape) if cshape is None else list(cshape)
-    core = sparse(cshape, "some", k) if sparse_core else dense(cshape, k)
+    if _zero(role):
+        core = ttb.tensor(np.zeros(tuple(cshape), order="F"), tuple(cshape))
+    else:
+        core = sparse(cshape, "some", k) if sparse_core else dense(cshape, k, role="core")
     fms = [np.array(vals_for(int(n) * c, k + j), dtype=float).reshape(int(n), c)
            for j, (n, c) in enumerate(zip(shape, cshape))]
     return ttb.ttensor(core, fms)
 
 
-def holder(kind, shape, k=0, pattern="some", r=2):
+def holder(kind, shape, k=0, pattern="some", r=2, role="self"):
     if kind == "tensor":
-        return dense(shape, k)
+        return dense(shape, k, role)
     if kind == "sptensor":
-        return sparse(shape, pattern, k)
+        return sparse(shape, pattern, k, role)
     if kind == "ktensor":
-        return kten(shape, r, k)
+        return kten(shape, r, k, role)
     if kind == "ttensor":
-        return tten(shape, None, k)
+        return tten(shape, None, k, role=role)
+    if kind == "sumtensor":  # forwards to its parts, whose checks are the stated ones
+        return ttb.sumtensor([dense(shape, k, role), sparse(shape, pattern, k + 1, role)])
     raise ValueError(kind)
+
+
+def other(kind, shape, k=0, pattern="some", r=2):
+    return holder(kind, shape, k, pattern, r, role="other")
+
+
+def num(a):
+    """a vector / matrix handed to the operation, in the dtype the case names (zeros when the case says so)"""
+    a = np.asarray(a, dtype=float)
+    if _STATE["zo"]:
+        a = a * 0.0
+    return a.astype({"float": np.float64, "int64": np.int64, "int32": np.int32}[_STATE["idt"]])
 
 
 # --------------------------------------------------------------------------
@@ -249,9 +299,13 @@ def table_case(viols, min_order=2, max_order=4, **extra):
             a=draw(st.integers(0, 7)),
             b=draw(st.integers(0, 7)),
             k=draw(st.integers(0, 5)),
-            pattern=draw(st.sampled_from(["some", "some", "full", "one", "empty"])),
+            pattern=draw(st.sampled_from(["some", "some", "full", "one", "empty", "zeros"])),
             r=draw(st.integers(1, 3)),
             mm=draw(st.sampled_from(MISMATCH)),
+            zs=draw(st.sampled_from([False, False, False, True])),
+            zo=draw(st.sampled_from([False, False, False, True])),
+            prov=draw(st.sampled_from(["ctor", "ctor", "grown"])),
+            idt=draw(st.sampled_from(["float", "float", "int64", "int32"])),
         )
         for name, choices in extra.items():
             c[name] = draw(st.sampled_from(choices))
@@ -288,8 +342,13 @@ def pick_distinct_mode(shape, a):
     return a % N
 
 
-def begin(ctx, cellname, case, *labels):
-    ctx.label("viol-" + case["viol"], *labels)
+def begin(ctx, cellname, case, *labels, plain=False):
+    if plain:  # rows whose valid control call needs ordinary data: operands as in round 1
+        case = dict(case, zs=False, zo=False, prov="ctor", idt="float")
+    state(case)
+    ctx.label("viol-" + case["viol"], *labels, "receiver-zero" if case.get("zs") else "receiver-nonzero",
+              "other-zero" if case.get("zo") else "other-nonzero", "dense-" + case.get("prov", "ctor"),
+              "args-" + case.get("idt", "float"))
     ctx.nt = True
     ctx.notes["stated"] = STATED.get(f"{cellname}/{case['viol']}", "")
 
@@ -311,7 +370,7 @@ _V = stated(
 
 @table("C19/dimscheck", _V, min_order=1, max_order=5)
 def c_dimscheck(ctx, case):
-    begin(ctx, "C19/dimscheck", case)
+    begin(ctx, "C19/dimscheck", case, plain=True)
     N = len(case["shape"])
     v, a, b = case["viol"], case["a"], case["b"]
     valid = [m for m in range(N) if (a >> m) & 1] or [b % N]
@@ -381,7 +440,7 @@ def c_tensor_innerprod(ctx, case):
     kd, oshape = mismatch(case["shape"], case["mm"], case["a"])
     ctx.label("mm-" + kd)
     X = dense(case["shape"], case["k"])
-    Y = holder(case["other"], oshape, case["k"] + 1, case["pattern"], case["r"])
+    Y = other(case["other"], oshape, case["k"] + 1, case["pattern"], case["r"])
     reject(ctx, f"shape_mismatch/{case['other']}", lambda: X.innerprod(Y), X, Y)
 
 
@@ -405,7 +464,7 @@ def c_tensor_mttkrp(ctx, case):
         reject(ctx, v, lambda: X.mttkrp(U, 0), X, U)
         return
     X = dense(shape, case["k"])
-    U = [np.array(vals_for(n * r, j), dtype=float).reshape(n, r) for j, n in enumerate(shape)]
+    U = [num(np.array(vals_for(n * r, j), dtype=float).reshape(n, r)) for j, n in enumerate(shape)]
     n = a % N
     if v == "list_wrong_length":
         U2 = U[:-1] if b % 2 else U + [np.ones((1, r))]
@@ -424,7 +483,7 @@ def c_tensor_mttkrp(ctx, case):
             shape = list(shape) + [2]
             N = 3
             X = dense(shape, case["k"])
-            U = [np.array(vals_for(m * r, j), dtype=float).reshape(m, r) for j, m in enumerate(shape)]
+            U = [num(np.array(vals_for(m * r, j), dtype=float).reshape(m, r)) for j, m in enumerate(shape)]
         i = [j for j in range(N) if j != n][b % (N - 1)]
         U[i] = np.ones((shape[i], r + 1))
         reject(ctx, v, lambda: X.mttkrp(U, n), X, U)
@@ -580,15 +639,15 @@ def c_tensor_scale(ctx, case):
     if case["viol"] == "factor_wrong_length":
         L = other_mode_len(shape, n, case["b"]) if case["b"] % 3 else 1 if shape[n] != 1 else 2
         ctx.label("length-of-another-mode" if L in shape else "other-length", "length-1" if L == 1 else "length>1")
-        f = np.arange(1.0, L + 1)
+        f = num(np.arange(1.0, L + 1))
         reject(ctx, "factor_wrong_length", lambda: X.scale(f, n), X, f)
     else:
         N = len(shape)
         m = (n + 1) % N
         d = sorted({n, m})
-        kd, other = mismatch([shape[i] for i in d], case["mm"], case["b"])
+        kd, other_shape = mismatch([shape[i] for i in d], case["mm"], case["b"])
         ctx.label("mm-" + kd)
-        F = dense(other, 1)
+        F = dense(other_shape, 1, role="other")
         reject(ctx, "tensor_factor_wrong_shape", lambda: X.scale(F, np.array(d)), X, F)
 
 
@@ -607,7 +666,7 @@ _TTV_V = dict(
 
 
 def _vec(n, k=0):
-    return np.array(vals_for(int(n), k), dtype=float)
+    return num(np.array(vals_for(int(n), k), dtype=float))
 
 
 def ttv_violation(ctx, X, shape, case, what):
@@ -674,7 +733,7 @@ def ttv_violation(ctx, X, shape, case, what):
 _V = stated("C19/ttv", **_TTV_V)
 
 
-@table("C19/ttv", _V, per=100, min_order=3, holder=["tensor", "sptensor", "ktensor", "ttensor"])
+@table("C19/ttv", _V, per=100, min_order=3, holder=["tensor", "sptensor", "ktensor", "ttensor", "sumtensor"])
 def c_ttv(ctx, case):
     begin(ctx, "C19/ttv", case, case["holder"])
     X = holder(case["holder"], case["shape"], case["k"], case["pattern"], case["r"])
@@ -704,7 +763,7 @@ def ttm_violation(ctx, X, shape, case, what):
     p = 2 + a % 2
 
     def mat(rows_in, k=0):  # a matrix that multiplies a mode of length rows_in
-        M = np.array(vals_for(p * rows_in, k), dtype=float).reshape(p, rows_in)
+        M = num(np.array(vals_for(p * rows_in, k), dtype=float).reshape(p, rows_in))
         return M.T.copy() if tr else M
 
     if v == "matrix_wrong_size":
@@ -784,12 +843,12 @@ def c_tensor_ttt(ctx, case):
     if style == 0:  # same mode index, other tensor has a different size there (size of another mode)
         oshape = list(shape)
         oshape[n] = L
-        Y = dense(oshape, 1)
+        Y = dense(oshape, 1, role="other")
         ctx.label("one-mode", "singleton-vs-n" if 1 in (L, shape[n]) else "n-vs-m")
         reject(ctx, "contracted_sizes_differ", lambda: X.ttt(Y, np.array([n]), np.array([n])), X, Y)
     elif style == 1:  # all modes against a permuted copy: same element count
         kd, oshape = mismatch(shape, "permuted-same-count", case["a"])
-        Y = dense(oshape, 1)
+        Y = dense(oshape, 1, role="other")
         ctx.label("all-modes-" + kd)
         if len(oshape) != N:
             reject(ctx, "contracted_sizes_differ", lambda: X.ttt(Y, np.arange(N), np.arange(len(oshape))), X, Y)
@@ -797,7 +856,7 @@ def c_tensor_ttt(ctx, case):
             reject(ctx, "contracted_sizes_differ", lambda: X.ttt(Y, np.arange(N), np.arange(N)), X, Y)
     else:  # two modes paired crosswise with an identical tensor: sizes (s_n, s_m) vs (s_m, s_n)
         m = [j for j in range(N) if shape[j] != shape[n]][0]
-        Y = dense(shape, 1)
+        Y = dense(shape, 1, role="other")
         ctx.label("crosswise-pairing")
         reject(ctx, "contracted_sizes_differ", lambda: X.ttt(Y, np.array([n, m]), np.array([m, n])), X, Y)
 
@@ -816,6 +875,13 @@ _V = stated(
 )
 
 
+def ctor_subs_class(case):
+    """pure function of the case: dtype of the subscript array handed to the constructor and whether the offending entry
+    is the largest value of an unsigned byte"""
+    sdt = ["int64", "int32", "uint8", "uint8"][case["k"] % 4]
+    return sdt, (sdt == "uint8" and case["b"] % 2 == 1)
+
+
 @table("C19/sptensor/ctor", _V)
 def c_sptensor_ctor(ctx, case):
     begin(ctx, "C19/sptensor/ctor", case)
@@ -826,7 +892,15 @@ def c_sptensor_ctor(ctx, case):
     v, a = case["viol"], case["a"]
     if v == "subscript_equal_bound":
         m = a % N
-        subs[case["b"] % len(subs), m] = shape[m]
+        sdt, top = ctor_subs_class(case)
+        subs = subs.astype(sdt)
+        # equal to the bound, or (unsigned bytes) the largest value the dtype holds: 255 + 1 must not wrap to 0
+        subs[case["b"] % len(subs), m] = 255 if top else shape[m]
+        ctx.label("subs-" + sdt, "offending-subscript-top-of-dtype" if top else "offending-subscript-equal-bound")
+        v = v + ("/top-of-dtype" if top else "")
+        if case.get("zo"):  # the offending entry is an explicitly stored zero: it changes no value of the tensor
+            vals[case["b"] % len(subs), 0] = 0.0
+            ctx.label("offending-value-zero")
         reject(ctx, v, lambda: ttb.sptensor(subs, vals, tuple(shape)), subs, vals)
     elif v == "subs_width_differs":
         if a % 2:
@@ -858,9 +932,33 @@ _V = stated(
 )
 
 
-@table("C19/sptensor/from_aggregator", _V, min_order=1)
+_EFFECTS = ["nonzero", "nonzero", "zero-value", "cancelling-pair", "all-bad-all-cancel", "zero-under-max"]
+
+
+def with_bad_row(subs, vals, bad, effect, pos):
+    """subscripts / values with the ill-formed row ``bad`` attached so that its aggregated value is what ``effect`` says:
+    a non-zero value, an explicit 0.0, two contributions that cancel exactly, nothing but cancelling bad rows, or a 0.0
+    that is the maximum of its group (for function_handle=max)"""
+    bad = np.asarray(bad, dtype=subs.dtype).reshape(1, -1)
+    pos = pos % (len(subs) + 1)
+    if effect == "nonzero":
+        extra_s, extra_v = bad, [[3.0]]
+    elif effect == "zero-value":
+        extra_s, extra_v = bad, [[0.0]]
+    elif effect == "zero-under-max":
+        extra_s, extra_v = np.vstack([bad, bad]), [[-2.0], [0.0]]
+    else:
+        extra_s, extra_v = np.vstack([bad, bad]), [[2.5], [-2.5]]
+    if effect == "all-bad-all-cancel":
+        return extra_s.copy(), np.array(extra_v, dtype=float), {}
+    s2 = np.vstack([subs[:pos], extra_s[:1], subs[pos:], extra_s[1:]])
+    v2 = np.vstack([vals[:pos], np.array(extra_v[:1], dtype=float), vals[pos:], np.array(extra_v[1:], dtype=float).reshape(-1, 1)])
+    return s2, v2, (dict(function_handle="max") if effect == "zero-under-max" else {})
+
+
+@table("C19/sptensor/from_aggregator", _V, min_order=1, effect=_EFFECTS)
 def c_sptensor_agg(ctx, case):
-    begin(ctx, "C19/sptensor/from_aggregator", case)
+    begin(ctx, "C19/sptensor/from_aggregator", case, "effect-" + case["effect"])
     shape = list(case["shape"])
     N = len(shape)
     S = sparse(shape, "some" if case["pattern"] == "empty" else case["pattern"], case["k"])
@@ -879,13 +977,19 @@ def c_sptensor_agg(ctx, case):
         s2 = np.hstack([subs, np.zeros((len(subs), 1), dtype=int)])
         reject(ctx, v, lambda: ttb.sptensor.from_aggregator(s2, vals, tuple(shape)), s2, vals)
     elif v == "subscript_equal_bound":
+        # the offending row's aggregated value may be anything - also exactly zero (then nothing of it would show in
+        # the result): an explicit zero, a cancelling pair, an input that consists of cancelling bad rows only
         m = a % N
-        subs[b % len(subs), m] = shape[m]
-        reject(ctx, v, lambda: ttb.sptensor.from_aggregator(subs, vals, tuple(shape)), subs, vals)
+        bad = subs[b % len(subs)].copy()
+        bad[m] = shape[m] + (case["k"] % 2)  # equal to the bound / one above it
+        s2, v2, kw = with_bad_row(subs, vals, bad, case["effect"], case["k"])
+        reject(ctx, v, lambda: ttb.sptensor.from_aggregator(s2, v2, tuple(shape), **kw), s2, v2)
     elif v == "negative_subscript":
-        subs[b % len(subs), a % N] = -1
-        reject(ctx, v, lambda: ttb.sptensor.from_aggregator(subs, vals, tuple(shape)), subs, vals)
-        reject(ctx, v, lambda: ttb.sptensor.from_aggregator(subs, vals), subs, vals)
+        bad = subs[b % len(subs)].copy()
+        bad[a % N] = -1
+        s2, v2, kw = with_bad_row(subs, vals, bad, case["effect"], case["k"])
+        reject(ctx, v, lambda: ttb.sptensor.from_aggregator(s2, v2, tuple(shape), **kw), s2, v2)
+        reject(ctx, v, lambda: ttb.sptensor.from_aggregator(s2, v2, **kw), s2, v2)
     elif v == "float_subscripts":
         s2 = subs.astype(float)
         reject(ctx, v, lambda: ttb.sptensor.from_aggregator(s2, vals, tuple(shape)), s2, vals)
@@ -919,8 +1023,8 @@ def c_sptensor_innerprod(ctx, case):
     kd, oshape = mismatch(case["shape"], case["mm"], case["a"])
     ctx.label("mm-" + kd)
     X = sparse(case["shape"], case["pattern"], case["k"])
-    opat = ["some", "full", "empty", "one"][case["b"] % 4]
-    Y = holder(case["other"], oshape, case["k"] + 1, opat, case["r"])
+    opat = ["some", "full", "empty", "one", "zeros"][case["b"] % 5]
+    Y = other(case["other"], oshape, case["k"] + 1, opat, case["r"])
     if case["other"] == "sptensor":
         ctx.label("other-" + opat)
     reject(ctx, f"shape_mismatch/{case['other']}", lambda: X.innerprod(Y), X, Y)
@@ -1024,7 +1128,7 @@ def _op_case_for(op):
         c = draw(table_case([op])(tier))
         others = ["sptensor", "sptensor", "tensor", "tensor"] + (["ktensor"] if op in ("mul", "truediv") else [])
         c["other"] = draw(st.sampled_from(others))
-        c["opattern"] = draw(st.sampled_from(["some", "full", "one", "empty"]))
+        c["opattern"] = draw(st.sampled_from(["some", "full", "one", "empty", "zeros"]))
         return c
 
     return strat
@@ -1038,16 +1142,17 @@ def _op_cells(fn):
 
 @_op_cells
 def c_sptensor_operators(ctx, case):
-    op, other = case["viol"], case["other"]
+    op, rhs = case["viol"], case["other"]
     kd, oshape = mismatch(case["shape"], case["mm"], case["a"])
-    ctx.label("op-" + op, "rhs-" + other, "mm-" + kd, "self-" + case["pattern"])
+    state(case)
+    ctx.label("op-" + op, "rhs-" + rhs, "mm-" + kd, "self-" + case["pattern"], "other-zero" if case.get("zo") else "other-nonzero")
     ctx.nt = True
     X = sparse(case["shape"], case["pattern"], case["k"])
-    Y = holder(other, oshape, case["k"] + 1, case["opattern"], case["r"])
-    if other == "sptensor":
+    Y = other(rhs, oshape, case["k"] + 1, case["opattern"], case["r"])
+    if rhs == "sptensor":
         ctx.label("rhs-" + case["opattern"])
     fn = _OPS[op][0]
-    reject(ctx, f"{op}/shape_mismatch/{other}", lambda: fn(X, Y), X, Y)
+    reject(ctx, f"{op}/shape_mismatch/{rhs}", lambda: fn(X, Y), X, Y)
 
 
 _V = stated(
@@ -1072,12 +1177,12 @@ def c_sptensor_misc(ctx, case):
     if v == "scale_array_wrong_length":
         L = other_mode_len(shape, n, b)
         ctx.label("length-of-another-mode" if L in shape else "other-length", "longer" if L > shape[n] else "shorter")
-        f = np.arange(1.0, L + 1)
+        f = num(np.arange(1.0, L + 1))
         reject(ctx, v, lambda: X.scale(f, np.array([n])), X, f)
     elif v in ("scale_tensor_factor_wrong_shape", "scale_sptensor_factor_wrong_shape"):
         L = other_mode_len(shape, n, b)
         ctx.label("longer" if L > shape[n] else "shorter")
-        F = dense([L], 1) if v.startswith("scale_tensor") else sparse([L], "full", 1)
+        F = dense([L], 1, role="other") if v.startswith("scale_tensor") else sparse([L], "zeros" if case.get("zo") else "full", 1)
         reject(ctx, v, lambda: X.scale(F, np.array([n])), X, F)
     elif v == "mask_bigger_than_data":
         w = list(shape)
@@ -1115,7 +1220,7 @@ _V = stated(
 
 @table("C19/ktensor/ctor", _V)
 def c_ktensor_ctor(ctx, case):
-    begin(ctx, "C19/ktensor/ctor", case)
+    begin(ctx, "C19/ktensor/ctor", case, plain=True)
     shape, r, a, b, v = list(case["shape"]), case["r"] + 1, case["a"], case["b"], case["viol"]
     N = len(shape)
     fms = [np.array(vals_for(n * r, j), dtype=float).reshape(n, r) for j, n in enumerate(shape)]
@@ -1189,12 +1294,12 @@ def c_ktensor_ops(ctx, case):
     elif v == "innerprod_shape_mismatch":
         kd, oshape = mismatch(shape, case["mm"], a)
         ctx.label("mm-" + kd, "other-" + case["other"])
-        Y = holder(case["other"], oshape, 1, ["some", "full", "empty"][b % 3], r)
+        Y = other(case["other"], oshape, 1, ["some", "full", "empty", "zeros"][b % 4], r)
         reject(ctx, f"{v}/{case['other']}", lambda: K.innerprod(Y), K, Y)
     elif v in ("add_shape_mismatch", "sub_shape_mismatch"):
         kd, oshape = mismatch(shape, case["mm"], a)
         ctx.label("mm-" + kd)
-        Y = kten(oshape, r if b % 2 else r + 1, 1)
+        Y = kten(oshape, r if b % 2 else r + 1, 1, role="other")
         reject(ctx, v, (lambda: K + Y) if v.startswith("add") else (lambda: K - Y), K, Y)
     else:
         Y = dense(shape, 1) if b % 2 else 1.0
@@ -1226,7 +1331,7 @@ def c_ttensor(ctx, case):
     cshape = [1 + (a + j) % 3 for j in range(N)]
     if len(set(cshape)) < 2:
         cshape[0] = cshape[0] % 3 + 1
-    core = sparse(cshape, "some", 1) if b % 2 else dense(cshape, 1)
+    core = sparse(cshape, "zeros" if case.get("zs") else "some", 1) if b % 2 else dense(cshape, 1)
     fms = [np.array(vals_for(n * c, j), dtype=float).reshape(n, c) for j, (n, c) in enumerate(zip(shape, cshape))]
     i = a % N
     if v == "ctor_only_core":
@@ -1258,7 +1363,7 @@ def c_ttensor(ctx, case):
         T = ttb.ttensor(core, fms)
         kd, oshape = mismatch(shape, case["mm"], a)
         ctx.label("mm-" + kd, "other-" + case["other"])
-        Y = holder(case["other"], oshape, 1, ["some", "full", "empty"][b % 3])
+        Y = other(case["other"], oshape, 1, ["some", "full", "empty", "zeros"][b % 4])
         reject(ctx, f"{v}/{case['other']}", lambda: T.innerprod(Y), T, Y)
 
 
@@ -1290,8 +1395,9 @@ def c_tenmat(ctx, case):
     k = 1 + a % (N - 1)
     r, c = list(range(k)), list(range(k, N))
     nr, nc = ref.prod(shape[:k]), ref.prod(shape[k:])
-    data = np.array(vals_for(nr * nc), dtype=float).reshape(nr, nc)
+    data = np.array(vals_for(nr * nc), dtype=float).reshape(nr, nc) * (0.0 if case.get("zs") else 1.0)
     R, C = np.array(r, dtype=int), np.array(c, dtype=int)
+    one = 0.0 if case.get("zo") else 1.0
     if v == "ctor_empty_data_with_dims":
         reject(ctx, v, lambda: ttb.tenmat(np.array([]), R, C, tuple(shape)))
     elif v == "ctor_non_numeric":
@@ -1321,7 +1427,7 @@ def c_tenmat(ctx, case):
             # right operand whose ROW count is not our column count; coincidence: it equals our row count
             rows = nr if nr != nc else nc + 1
             ctx.label("rows-equal-left-rows" if rows == nr else "rows-off-by-one", "singleton-inner" if 1 in (rows, nc) else "proper-inner")
-            Bm = ttb.tenmat(np.ones((rows, 2)), np.array([0]), np.array([1]), (rows, 2))
+            Bm = ttb.tenmat(one * np.ones((rows, 2)), np.array([0]), np.array([1]), (rows, 2))
             reject(ctx, v, lambda: A * Bm, A, Bm)
         elif v in ("add_shape_mismatch", "sub_shape_mismatch"):
             # coincidences: transposed matrix shape (same count), a single row / column that broadcasts
@@ -1330,10 +1436,10 @@ def c_tenmat(ctx, case):
                 Bm = ttb.tenmat(data.T.copy(), C - k, R + (N - k), tuple(shape[k:] + shape[:k]))
                 ctx.label("transposed-same-count")
             elif style == 1 and nr > 1:
-                Bm = ttb.tenmat(np.ones((1, nc)), np.array([0]), np.array([1]), (1, nc))
+                Bm = ttb.tenmat(one * np.ones((1, nc)), np.array([0]), np.array([1]), (1, nc))
                 ctx.label("single-row-broadcastable")
             else:
-                Bm = ttb.tenmat(np.ones((nr, nc + 1)), np.array([0]), np.array([1]), (nr, nc + 1))
+                Bm = ttb.tenmat(one * np.ones((nr, nc + 1)), np.array([0]), np.array([1]), (nr, nc + 1))
                 ctx.label("one-more-column")
             reject(ctx, v, (lambda: A + Bm) if v.startswith("add") else (lambda: A - Bm), A, Bm)
         else:
@@ -1355,6 +1461,7 @@ _V = stated(
 @table("C19/sptenmat", _V, min_order=3)
 def c_sptenmat(ctx, case):
     begin(ctx, "C19/sptenmat", case)
+    state(dict(case, zo=False))
     shape, a, b, v = list(case["shape"]), case["a"], case["b"], case["viol"]
     N = len(shape)
     k = 1 + a % (N - 1)
@@ -1374,6 +1481,9 @@ def c_sptenmat(ctx, case):
         col = 0 if v.startswith("row") else 1
         bound = nr if col == 0 else nc
         subs[-1, col] = bound if v.endswith("equal_bound") else bound + 1 + a % 2
+        if case.get("zo"):
+            vals[-1, 0] = 0.0
+            ctx.label("offending-value-zero")
         reject(ctx, v, lambda: ttb.sptenmat(subs, vals, R, C, tuple(shape)), subs, vals)
 
 
@@ -1398,7 +1508,7 @@ def c_sumtensor(ctx, case):
     elif v == "shapes_differ":
         kd, oshape = mismatch(shape, case["mm"], a)
         ctx.label("mm-" + kd, "first-" + case["first"], "other-" + case["other"])
-        Q = holder(case["other"], oshape, 1, "some", 2)
+        Q = other(case["other"], oshape, 1, "some", 2)
         parts = [P, Q] if b % 2 else [P, holder(case["other"], shape, 2, "some", 2), Q]
         reject(ctx, v, lambda: ttb.sumtensor(parts), P, Q)
     else:
@@ -1420,7 +1530,7 @@ _V = stated(
 def c_khatrirao(ctx, case):
     begin(ctx, "C19/khatrirao", case)
     shape, r, a, b, v = list(case["shape"]), case["r"] + 1, case["a"], case["b"], case["viol"]
-    Ms = [np.array(vals_for(n * r, j), dtype=float).reshape(n, r) for j, n in enumerate(shape)]
+    Ms = [num(np.array(vals_for(n * r, j), dtype=float).reshape(n, r)) for j, n in enumerate(shape)]
     i = a % len(Ms)
     if v == "list_argument":
         reject(ctx, v, lambda: ttb.khatrirao(Ms), Ms)
@@ -1441,7 +1551,7 @@ def c_khatrirao(ctx, case):
             Ms[i] = Ms[i].T.copy()
             ctx.label("transposed")
         else:
-            Ms[i] = np.ones((shape[i], r + 1))
+            Ms[i] = num(np.ones((shape[i], r + 1)))
             ctx.label("one-more-column")
         reject(ctx, v, lambda: ttb.khatrirao(*Ms, reverse=bool(a % 2)), Ms)
 
@@ -1478,7 +1588,7 @@ def _bad_dimorder(N, v, a, b):
 
 @table("C19/alg/cp_als", _V, holder=["tensor", "sptensor", "ktensor"])
 def c_cp_als(ctx, case):
-    begin(ctx, "C19/alg/cp_als", case, case["holder"])
+    begin(ctx, "C19/alg/cp_als", case, case["holder"], plain=True)
     shape, a, b, v, r = list(case["shape"]), case["a"], case["b"], case["viol"], case["r"] + 1
     N = len(shape)
     X = holder(case["holder"], shape, case["k"], "some", 2)
@@ -1544,7 +1654,7 @@ def _pos_kt(shape, r):
 
 @table("C19/alg/cp_apr", _V, alg=["mu", "pdnr", "pqnr"], sp=[False, True])
 def c_cp_apr(ctx, case):
-    begin(ctx, "C19/alg/cp_apr", case, case["alg"], "sparse" if case["sp"] else "dense")
+    begin(ctx, "C19/alg/cp_apr", case, case["alg"], "sparse" if case["sp"] else "dense", plain=True)
     shape, a, b, v, r = list(case["shape"]), case["a"], case["b"], case["viol"], case["r"]
     N = len(shape)
     X = _nonneg(shape, case["sp"])
@@ -1603,7 +1713,7 @@ _V = stated(
 
 @table("C19/alg/tucker", _V)
 def c_tucker(ctx, case):
-    begin(ctx, "C19/alg/tucker", case)
+    begin(ctx, "C19/alg/tucker", case, plain=True)
     shape, a, b, v = list(case["shape"]), case["a"], case["b"], case["viol"]
     N = len(shape)
     X = dense(shape, case["k"])
@@ -1667,7 +1777,7 @@ def c_gcp(ctx, case):
     from pyttb.gcp.optimizers import LBFGSB, SGD
     from pyttb.gcp.fg_setup import Objectives
 
-    begin(ctx, "C19/alg/gcp_opt", case)
+    begin(ctx, "C19/alg/gcp_opt", case, plain=True)
     shape, a, b, v, r = list(case["shape"]), case["a"], case["b"], case["viol"], case["r"]
     X = dense(shape, case["k"])
     S = sparse(shape, "some", case["k"])
@@ -1716,12 +1826,18 @@ _V = stated(
     file_missing="import_data.py:30 'File path ... does not exist.'",
     unknown_type_line="import_data.py:39 'Invalid data type found'",
     order_line_disagrees_with_sizes="import_data.py:83 'Imported dimensions are not of expected size'",
+    sparse_subscript_exceeds_size="sptensor.py:152 'Shape provided was incorrect to fit all subscripts' (import_data hands the "
+                                  "file's subscripts and sizes to the constructor); the offending line may carry a zero value",
+    sparse_file_read_with_lower_base="same: a 1-based file read with index_base=0 puts the largest subscript of a mode at "
+                                     "the bound",
 )
 
 
 @table("C19/import_data", _V, kind=["tensor", "sptensor", "ktensor", "matrix"])
 def c_import(ctx, case):
-    begin(ctx, "C19/import_data", case, case["kind"])
+    if case["viol"].startswith("sparse_"):
+        case = dict(case, kind="sptensor")
+    begin(ctx, "C19/import_data", case, case["kind"], plain=True)
     shape, a, b, v = list(case["shape"]), case["a"], case["b"], case["viol"]
     if case["kind"] == "matrix":
         shape = shape[:2]
@@ -1739,7 +1855,40 @@ def c_import(ctx, case):
             q = os.path.join(d, "nope.tns") if b % 2 else d  # a directory is not a file either
             reject(ctx, v, lambda: ttb.import_data(q))
             return
-        if v == "unknown_type_line":
+        if v in ("sparse_subscript_exceeds_size", "sparse_file_read_with_lower_base"):
+            shape = [int(t) for t in lines[2].split()]
+            N = len(shape)
+            if v == "sparse_file_read_with_lower_base":
+                # make sure some mode's last index is stored, then read the (valid, 1-based) file with base 0
+                m = a % N
+                row = [1] * N
+                row[m] = shape[m]
+                nz = int(lines[3].split()[0])
+                lines[3] = str(nz + 1)
+                val = "0.0000000000000000e+00" if b % 2 else "2.5000000000000000e+00"
+                body = [ln for ln in lines[4:] if ln.strip()]
+                body = [ln for ln in body if [int(t) for t in ln.split()[:N]] != row]
+                lines[3] = str(len(body) + 1)
+                lines = lines[:4] + body[: case["k"] % (len(body) + 1)] + [" ".join(map(str, row)) + " " + val] + \
+                    body[case["k"] % (len(body) + 1):] + [""]
+                ctx.label("offending-value-zero" if b % 2 else "offending-value-nonzero")
+                q = os.path.join(d, "base.tns")
+                with open(q, "w") as f:
+                    f.write("\n".join(lines))
+                with ctx.sut("control:valid-call"):
+                    ttb.import_data(q)  # read with the base it was written in, the file is fine
+                reject(ctx, f"{v}/sptensor", lambda: ttb.import_data(q, index_base=0))
+                return
+            m = a % N
+            row = [1 + (i * 3 + b) % shape[i] for i in range(N)]
+            row[m] = shape[m] + 1
+            val = "0.0000000000000000e+00" if b % 2 else "2.5000000000000000e+00"
+            ctx.label("offending-value-zero" if b % 2 else "offending-value-nonzero")
+            body = [ln for ln in lines[4:] if ln.strip()]
+            lines[3] = str(len(body) + 1)
+            pos = case["k"] % (len(body) + 1)
+            lines = lines[:4] + body[:pos] + [" ".join(map(str, row)) + " " + val] + body[pos:] + [""]
+        elif v == "unknown_type_line":
             lines[0] = ["Tensor", "sparse", "tensors", "", "mat"][a % 5]
         else:
             n = int(lines[1].split()[0])
@@ -1788,6 +1937,8 @@ PREDICATES = {
     "self_sptensor_empty": lambda c: c["pattern"] == "empty",
     "shapes_broadcast": _broadcastable,
     "stored_subscripts_fit_other_shape": _stored_subs_fit_other,
+    # sptensor.__init__ compares np.max(subs) + 1 with the shape in the dtype of subs
+    "offending_subscript_is_255_in_uint8": lambda c: ctor_subs_class(c)[1],
 }
 
 ASSUMPTIONS += [f"table row {k}: stated by {v}" for k, v in sorted(STATED.items())]
